@@ -117,4 +117,39 @@ example :
     Nsp.kind, Nsp.sym, Nsp.dictName, Nsp.outerMap, Nsp.globalsInComp,
     SymScope.lookup, SymScope.symbols, exLoc, bind, Except.bind, pure, Except.pure]
 
+/-- **An assignment expression inside a lambda stays the lambda's own**: wherever the lambda is written
+    (function, class, module), with `bound` carrying the lambda mark the walrus is copied as it is - it is never
+    routed to a dictionary of the enclosing scope (false of the code before FIX-D74). -/
+theorem walrus_in_lambda_is_local (n : Nsp) (bound : List String) (t : String) (v r : Expr)
+    (hm : lamMark ∈ bound) (h : transf n bound (.namedExpr t v) = .ok r) :
+    ∃ v', r = .namedExpr t v' ∧ transf n bound v = .ok v' := by
+  simp only [transf] at h
+  obtain ⟨v', hv, h⟩ := bind_ok h
+  have : bound.contains lamMark = true := by simpa using hm
+  rw [if_pos this] at h
+  cases pure_ok h
+  exact ⟨v', rfl, hv⟩
+
+/-- ... and inside that lambda the name is read as the plain local, like a parameter: the body is transformed
+    with the walrus targets of the body among the bound names -/
+theorem lambda_body_binds_walrus_targets (n : Nsp) (bound : List String) (po as : List String) (va : Option String)
+    (ko : List String) (kd : List (Option Expr)) (kw : Option String) (ds : List Expr) (body r : Expr)
+    (h : transf n bound (.lambda (.mk po as va ko kd kw ds) body) = .ok r) :
+    ∃ ds' kd' body', r = .lambda (.mk po as va ko kd' kw ds') body' ∧
+      transf n (lamMark :: (Arguments.paramNames (.mk po as va ko kd kw ds) ++ walrusNames body ++ bound)) body = .ok body' ∧
+      ∀ x ∈ walrusNames body,
+        n.getLoad (lamMark :: (Arguments.paramNames (.mk po as va ko kd kw ds) ++ walrusNames body ++ bound)) x = .ok (.name x) := by
+  simp only [transf] at h
+  obtain ⟨ds', _, h⟩ := bind_ok h
+  obtain ⟨kd', _, h⟩ := bind_ok h
+  obtain ⟨body', hb, h⟩ := bind_ok h
+  cases pure_ok h
+  exact ⟨ds', kd', body', rfl, hb, fun x hx => comprehension_variable_shadows n _ x (by simp [hx])⟩
+
+/-- non-vacuity: `lambda: (y := 2)` in a function whose `y` lives in its dictionary keeps the walrus -/
+example : transf (.mk .function (.mk "f" .function 1 [{ exLoc with name := "y" }] [] [] [] [] []) "" "" "d" ["y"] [] [] false false [] []) []
+      (.lambda (.mk [] [] none [] [] none []) (.namedExpr "y" (.const (.int 2))))
+    = .ok (.lambda (.mk [] [] none [] [] none []) (.namedExpr "y" (.const (.int 2)))) := by
+  simp [transf, transfList, transfOptList, Arguments.paramNames, walrusNames, lamMark, bind, Except.bind, pure, Except.pure]
+
 end OlVerif.C06
